@@ -141,12 +141,19 @@ func VerifC16Answers() {
 		w.step()
 	}
 	ctx := context.Background()
+	// reads name a revision, as a paginated list does for its second and later pages: 0 (latest)
+	// or any revision the history has reached
+	rev := zzverif.I64("readRevision")
+	zzverif.Assume(zzverif.Or(rev == 0, zzverif.And(rev > 5, rev <= int64(w.dealt))))
+	if rev != 0 {
+		zzverif.Cover("read-at-explicit-revision")
+	}
 	switch zzverif.Choose("read", 3) {
 	case 0:
 		key := vEKeys[zzverif.Choose("rd.key", w.nkeys)]
-		resp, err := w.s.Range(ctx, &etcdserverpb.RangeRequest{Key: key})
+		resp, err := w.s.Range(ctx, &etcdserverpb.RangeRequest{Key: key, Revision: rev})
 		zzverif.Assert(err == nil, "get: no error")
-		cur, live := w.g.At(key, 0)
+		cur, live := w.g.At(key, uint64(rev))
 		if live {
 			zzverif.Assert(len(resp.Kvs) == 1 && resp.Count == 1, "get: one kv, count 1")
 			zzverif.Assert(zzverif.BytesEq(resp.Kvs[0].Value, cur.Val) && resp.Kvs[0].ModRevision == int64(cur.Rev), "get: value and modification revision")
@@ -156,9 +163,9 @@ func VerifC16Answers() {
 		}
 	case 1:
 		limit := zzverif.Choose("limit", w.nkeys+2)
-		resp, err := w.s.Range(ctx, &etcdserverpb.RangeRequest{Key: []byte("/r/"), RangeEnd: []byte("/r0"), Limit: int64(limit)})
+		resp, err := w.s.Range(ctx, &etcdserverpb.RangeRequest{Key: []byte("/r/"), RangeEnd: []byte("/r0"), Limit: int64(limit), Revision: rev})
 		zzverif.Assert(err == nil, "list: no error")
-		want, more := w.g.List([]byte("/r/"), []byte("/r0"), 0, limit)
+		want, more := w.g.List([]byte("/r/"), []byte("/r0"), uint64(rev), limit)
 		zzverif.Assert(len(resp.Kvs) == len(want), "list: number of kvs")
 		zzverif.Assert(resp.More == more, "list: more flag")
 		if more {
